@@ -78,6 +78,9 @@ func effective(c Case, o Outcome) (eff []Fault) {
 // must re-derives the spec's acceptance rule (Renter.tla, MustOf) for the effective faults.
 func must(c Case, eff []Fault) string {
 	if len(eff) == 0 {
+		if c.Unservable {
+			return "any" // the reference host refuses the request: HonestSucceeds does not apply
+		}
 		return "ok"
 	}
 	for _, f := range eff {
@@ -107,6 +110,7 @@ func judge(c Case, o Outcome) (kind, desc string) {
 
 func runCases(t *testing.T, in replayIn, res *hx.Result, tw *hx.TraceWriter) {
 	e := newEnv(t)
+	sampled := map[string]bool{}
 	for _, c := range in.Cases {
 		s, err := e.newSession(c)
 		if err != nil {
@@ -140,7 +144,7 @@ func runCases(t *testing.T, in replayIn, res *hx.Result, tw *hx.TraceWriter) {
 		res.Count("outcome_"+o.Outcome, 1)
 		res.Count("rpc_"+c.RPC, 1)
 		if len(eff) < len(c.Faults) {
-			res.Count("noop_faults", len(c.Faults)-len(eff))
+			res.Count("faults_noop_or_unseen", len(c.Faults)-len(eff))
 		}
 		if len(eff) > 0 && o.Outcome == "ok" && o.Bound {
 			res.Count("corrupted_but_bound_accepted", 1)
@@ -167,7 +171,8 @@ func runCases(t *testing.T, in replayIn, res *hx.Result, tw *hx.TraceWriter) {
 			}
 			tw.Emit(ev)
 		}
-		if len(c.Faults) > 0 && (o.Outcome == "err" || len(res.Samples) < 2) {
+		if len(c.Faults) > 0 && !c.Info && !sampled[c.RPC] && (c.RPC == "ReadSector" || c.RPC == "AppendSectors" || c.RPC == "SectorRoots" || c.RPC == "ReplenishAccounts") {
+			sampled[c.RPC] = true
 			res.Sample(map[string]any{"case": c.Key(), "must": must(c, eff), "outcome": o.Outcome, "bound": o.Bound, "err": o.Err, "detail": o.Detail, "delivered": o.Delivered})
 		}
 		if kind, desc := judge(c, o); kind != "" {
